@@ -59,6 +59,15 @@ Definition shallow_copy (st : store) (o : obj) : store * obj :=
     (st1, mkObj (slots o) (pc o) b' true)
   else (st, o).
 
+(* copy = shallow_copy(self); copy._parameters = copy._parameters.copy(): the with-argument accessors that may rebind a
+   parameter (grid / data / unlink / matrix) give the copy its own _parameters dict; the Parameter objects stay shared *)
+Definition shallow_copy_own (st : store) (o : obj) : store * obj :=
+  let '(st1, c) := shallow_copy st o in
+  if ismod c then
+    let '(st2, p') := alloc_cont st1 (cv st1 (pc c)) in
+    (st2, mkObj (slots c) p' (bc c) true)
+  else (st1, c).
+
 (* clone of every tensor of a list of entries *)
 Fixpoint clone_entries (st : store) (l : list entry) : store * list entry :=
   match l with
@@ -117,12 +126,12 @@ Definition clear_buffers (st : store) (o : obj) : store :=
   set_cont st (bc o) (del_entry (del_entry (cv st (bc o)) n_u) n_p).
 (* SpatialTransform.grid(g) / condition(args): copy, (clear buffers,) rebind a plain attribute *)
 Definition acc_grid (st : store) (o : obj) (g : nat) : store * obj :=
-  let '(st1, c) := shallow_copy st o in (clear_buffers st1 c, set_slot c n_grid (RV g)).
+  let '(st1, c) := shallow_copy_own st o in (clear_buffers st1 c, set_slot c n_grid (RV g)).
 Definition acc_condition (st : store) (o : obj) (a : nat) : store * obj :=
   let '(st1, c) := shallow_copy st o in (clear_buffers st1 c, set_slot c n_args (RV a)).
 (* ParametricTransform.data(arg): copy.params = Parameter(arg) if params is a Parameter else arg *)
 Definition acc_data (st : store) (o : obj) (v : nat) : setres :=
-  let '(st1, c) := shallow_copy st o in
+  let '(st1, c) := shallow_copy_own st o in
   let '(st2, t) := alloc_tensor st1 v in
   let isparam := match get_entry (cv st2 (pc c)) n_params with Some (RT _) => true | _ => false end in
   match module_setattr st2 c n_params (if isparam then VParam t else VTensor t) with
@@ -131,7 +140,7 @@ Definition acc_data (st : store) (o : obj) (v : nat) : setres :=
   end.
 (* ParametricTransform.unlink(): copy.params = None *)
 Definition acc_unlink (st : store) (o : obj) : setres :=
-  let '(st1, c) := shallow_copy st o in
+  let '(st1, c) := shallow_copy_own st o in
   match module_setattr st1 c n_params VNoneV with
   | SOk st2 c' => SOk (set_cont st2 (bc c') (del_entry (cv st2 (bc c')) n_p)) c'
   | SErr => SErr
